@@ -119,6 +119,18 @@ class Engine:
         else:
             r = self.solver.check()
             self._last_model = self.solver.model() if r == z3.sat else None
+        if r == z3.unknown:
+            # the incremental core's nonlinear arithmetic is incomplete: retry with a fresh solver
+            # (complete nlsat pipeline) on the whole path condition
+            s2 = z3.Solver()
+            s2.set('timeout', SOLVER_TIMEOUT_MS)
+            for c in self.pc:
+                s2.add(c)
+            for c in extra:
+                s2.add(c)
+            r = s2.check()
+            self._last_model = s2.model() if r == z3.sat else None
+            self.nfallback = getattr(self, 'nfallback', 0) + 1
         self.solver_s += _now() - t0
         if r == z3.unknown:
             raise Inconclusive("z3 unknown: %s" % self.solver.reason_unknown())
